@@ -284,7 +284,8 @@ def recognise (evs : List (Event B32)) : Option (List (SpecEl B32)) :=
 
 /-! ### the spec on the implementation's reply -/
 
-/-- what the code is known to return for a document with `total ion current = 0` elements -/
+/-- what the code returned for a document with `total ion current = 0` elements before finding C16-tic-zero
+    was repaired; only used to give a regression its old name -/
 def asCodedDoc (cfg : Config) (els : List (SpecEl B32)) : List (Spectrum B32) :=
   els.flatMap fun e => if e.noTicZero then (denote cfg e).toList else (ticZeroAsCoded cfg).toList
 
@@ -304,7 +305,7 @@ def specVerdict (cfg : Config) (evs : List (Event B32)) (impl : List String) : S
         | none => "na"
         | some want =>
           if got == want then "ok" else
-          -- the recorded defect, and nothing else, explains the difference?
+          -- regression of the repaired finding C16-tic-zero (blank spectrum for TIC = 0), and nothing else?
           if !els.all SpecEl.noTicZero && fieldsOf (asCodedDoc cfg els) == some got then
             "bad:tic_zero_blank_spectrum"
           else if got.length != want.length then "bad:spectrum_count"
